@@ -146,3 +146,14 @@ Proof.
   f_equal. f_equal. apply map_eq. intros k. rewrite lookup_merge, lookup_empty.
   destruct (s !! k); reflexivity.
 Qed.
+
+(* subtracting then adding returns the original, dimension by dimension, when the receiver's scalar map is not
+   nil (with a nil map sub returns early and drops the scalars: C16_sub_nil_drops_scalars) — a dimension r
+   lacks goes through -x and back to 0 *)
+Theorem sub_add_pointwise r x : sc r <> None ->
+  cpu (add (sub r x) x) = cpu r /\ mem (add (sub r x) x) = mem r /\
+  forall k, sget (add (sub r x) x) k = sget r k.
+Proof.
+  intros H. rewrite add_cpu, add_mem, sub_cpu, sub_mem. repeat split; try lia.
+  intros k. rewrite add_sget, sub_sget by exact H. lia.
+Qed.
